@@ -97,8 +97,15 @@ def _gen(kind):
         hi = rnd.random() < 0.5
         # half of the draws sit on high-symmetry positions (many exact ties), the other half are generic
         def pos(m):
-            return np.array([[rnd.choice([0.0, 0.5, 0.25, -0.5]) if hi else rnd.uniform(-0.5, 0.5) for _ in range(3)] for _ in range(m)])
+            return np.array([[rnd.choice([0.0, 0.5, 0.25, -0.5, -0.25, 0.125]) if hi else rnd.uniform(-0.5, 0.5) for _ in range(3)] for _ in range(m)])
         rb = np.eye(3) * rnd.choice([1.0, 2.5]) if hi else np.array([[rnd.uniform(-2, 2) for _ in range(3)] for _ in range(3)])
+        if hi and rnd.random() < 0.5:
+            # strongly sheared but reduced cells: fcc / bcc / rhombohedral primitive vectors as columns (many-fold ties
+            # between images that are not related by a single lattice step)
+            a_ = rnd.choice([2.0, 3.0])
+            rb = rnd.choice([np.array([[0, a_, a_], [a_, 0, a_], [a_, a_, 0]]) / 2.0,
+                             np.array([[-a_, a_, a_], [a_, -a_, a_], [a_, a_, -a_]]) / 2.0,
+                             np.array([[a_, 0.4 * a_, 0.4 * a_], [0.4 * a_, a_, 0.4 * a_], [0.4 * a_, 0.4 * a_, a_]])]).T
         tm = np.array([[rnd.randint(-2, 2) for _ in range(3)] for _ in range(3)])
         d = {"pos_to": pos(npt), "num_pos_to": npt, "pos_from": pos(npf), "num_pos_from": npf, "lattice_points": lp,
              "num_lattice_points": len(lp), "reduced_basis": rb, "trans_mat": tm,
